@@ -146,11 +146,16 @@ def project_onto_tr_error(x, xk, bounds, trSize, result):
     return ProjectOntoTrOutside(_state["last"])
 
 
-def cauchy_point_in_box_and_ball(x, g, bounds, trSize, result):
+def cauchy_point_in_box_and_ball(x, g, bounds, alpha, trSize, result):
     lb, ub = _np_bounds(bounds)
     xn = onp.asarray(x, dtype=float)
     D = float(trSize)
-    if not (onp.all(onp.isfinite(xn)) and onp.all(onp.isfinite(onp.asarray(g, dtype=float))) and D > 0 and box_excess(xn, lb, ub) <= 1.0):
+    a_in = float(alpha)
+    if not onp.isfinite(a_in):
+        # the solver's own initial step length trSize/|g| is inf when the gradient is exactly 0 (only reachable with tol = 0):
+        # the search then returns a NaN step, which the NaN-safe acceptance test of the caller rejects; not judged here
+        _count("cauchy_point_skipped_nonfinite_initial_step_length")
+    if not (onp.isfinite(a_in) and onp.all(onp.isfinite(xn)) and onp.all(onp.isfinite(onp.asarray(g, dtype=float))) and D > 0 and box_excess(xn, lb, ub) <= 1.0):
         _count("cauchy_point_skipped")
         return True
     _count("cauchy_point_evals")
@@ -164,7 +169,7 @@ def cauchy_point_in_box_and_ball(x, g, bounds, trSize, result):
     return ok
 
 
-def cauchy_point_error(x, g, bounds, trSize, result):
+def cauchy_point_error(x, g, bounds, alpha, trSize, result):
     return CauchyPointOutside(_state["last"])
 
 
